@@ -26,7 +26,7 @@ enum { REUSE_NONE = 0, REUSE_LIFO = 1, REUSE_FIFO = 2 };
 struct ArenaState {
     char *base = nullptr; size_t cap = 0;
     size_t up = 0, down = 0;
-    int dir = 0, reuse = 0; int fill = -1;     // fill: -1 none, else byte value
+    int dir = 0, reuse = 0; int fill = -1;     // fill: -1 none, 0..255 byte value, 256.. every 8 bytes an ordinary double (2.75, 1000, -7.5)
     long live = 0, total = 0; size_t live_bytes = 0;
     struct Free { Free *next; };
     Free *head[257]; Free *tail[257];
@@ -75,7 +75,8 @@ inline void *arena_alloc(size_t n) {
         blk = raw + sizeof(Hdr);
         MCX_POISON(raw, sizeof(Hdr)); MCX_POISON(blk + n, RZ);
     }
-    if (A.fill >= 0) memset(blk, A.fill, n);
+    if (A.fill >= 256) { static const double PAT[3] = {2.75, 1000.0, -7.5}; double v = PAT[(A.fill - 256) % 3]; size_t k = 0; for (; k + sizeof(double) <= n; k += sizeof(double)) memcpy(blk + k, &v, sizeof(double)); if (k < n) memset(blk + k, 0x40, n - k); }   // "dirty" memory that reads as an ordinary double (what a recycled block of doubles looks like)
+    else if (A.fill >= 0) memset(blk, A.fill, n);
     A.live++; A.total++; A.live_bytes += n;
     return blk;
 }
